@@ -28,7 +28,8 @@ RULE = (
     "(buffers: valid encodings truncated at a byte, extended with garbage, bit-flipped, zero-filled, with corrupted "
     "prefix bytes, spliced, empty, NULL, fully random), SER with capacities 0..max+1 into exact-size allocations, "
     "INIT, POISON (C: memset before a decode; C++: overwrite by copy/move/reconstruct/self-assign/swap), CORRUPT (array "
-    "count above capacity, union tag out of range) followed by SER. Distinct = digest of (type-set digest, configuration, "
+    "count above capacity, union tag out of range) followed by SER, SCRIBBLE (one scalar leaf - never a bool - set to all-ones, "
+    "INT_MIN, INT_MAX, +-inf, NaN, a huge finite float, a subnormal or arbitrary bytes) followed by SER. Distinct = digest of (type-set digest, configuration, "
     "op-kind and fault-kind histogram); non-trivial = the harness ran at least one decode into a used, failed or corrupted "
     "slot and one serialisation into an undersized buffer."
 )
@@ -131,6 +132,54 @@ def _inner(t: typing.Any) -> typing.Any:
     return t.inner_type if isinstance(t, pydsdl.DelimitedType) else t
 
 
+def _scalar_leaf(pydsdl: typing.Any, dt: typing.Any) -> bool:
+    return isinstance(dt, pydsdl.PrimitiveType) and not isinstance(dt, pydsdl.BooleanType)
+
+
+def _c_scribble_cases(pydsdl: typing.Any, lc: typing.Any, lang: typing.Any, inner: typing.Any, prefix: str = "o->", depth: int = 0) -> typing.List[str]:
+    """C statements that give one scalar leaf (never a bool) of the object an extreme / arbitrary bit pattern."""
+    out = []  # type: typing.List[str]
+    is_union = isinstance(inner, pydsdl.UnionType)
+    fields = list(inner.fields) if is_union else list(inner.fields_except_padding)
+    for k, f in enumerate(fields):
+        ref = prefix + lc.filter_id(lang, f.name)
+        sel = "%s_tag_ = %dU; " % (prefix, k) if is_union else ""
+        dt = f.data_type
+        if _scalar_leaf(pydsdl, dt):
+            out.append("%sscrib(&%s, sizeof(%s), value);" % (sel, ref, ref))
+        elif isinstance(dt, pydsdl.FixedLengthArrayType) and _scalar_leaf(pydsdl, dt.element_type):
+            out.append("%sscrib(&%s[value %% %dU], sizeof(%s[0]), value >> 3);" % (sel, ref, dt.capacity, ref))
+        elif isinstance(dt, pydsdl.VariableLengthArrayType) and _scalar_leaf(pydsdl, dt.element_type) and dt.capacity > 0:
+            # (the element array may be smaller than the DSDL capacity: the capacity-override build)
+            out.append("%sif (%s.count == 0U || %s.count > sizeof(%s.elements) / sizeof(%s.elements[0])) { %s.count = 1U; } scrib(&%s.elements[value %% %s.count], sizeof(%s.elements[0]), value >> 3);" % (sel, ref, ref, ref, ref, ref, ref, ref, ref))
+        elif isinstance(dt, pydsdl.CompositeType) and depth < 1 and not is_union:
+            sub = _inner(dt)
+            if isinstance(sub, pydsdl.StructureType):
+                out += _c_scribble_cases(pydsdl, lc, lang, sub, ref + ".", depth + 1)
+    return out
+
+
+def _cpp_scribble_cases(pydsdl: typing.Any, lcpp: typing.Any, lang: typing.Any, inner: typing.Any, prefix: str = "o->", depth: int = 0) -> typing.List[str]:
+    out = []  # type: typing.List[str]
+    is_union = isinstance(inner, pydsdl.UnionType)
+    fields = list(inner.fields) if is_union else list(inner.fields_except_padding)
+    for f in fields:
+        fid = lcpp.filter_id(lang, f.name)
+        ref = "%sset_%s()" % (prefix, fid) if is_union else prefix + fid
+        dt = f.data_type
+        if _scalar_leaf(pydsdl, dt):
+            out.append("auto& v = %s; scrib(&v, sizeof(v), value);" % ref)
+        elif isinstance(dt, pydsdl.FixedLengthArrayType) and _scalar_leaf(pydsdl, dt.element_type):
+            out.append("auto& v = %s; scrib(&v[value %% %dU], sizeof(v[0]), value >> 3);" % (ref, dt.capacity))
+        elif isinstance(dt, pydsdl.VariableLengthArrayType) and _scalar_leaf(pydsdl, dt.element_type) and dt.capacity > 0:
+            out.append("auto& v = %s; if (v.size() == 0U || v.size() > %dU) { v.resize(1U); } scrib(&v[value %% v.size()], sizeof(v[0]), value >> 3);" % (ref, dt.capacity))
+        elif isinstance(dt, pydsdl.CompositeType) and depth < 1 and not is_union:
+            sub = _inner(dt)
+            if isinstance(sub, pydsdl.StructureType):
+                out += _cpp_scribble_cases(pydsdl, lcpp, lang, sub, ref + ".", depth + 1)
+    return out
+
+
 def write_c_table(path: str, types: list, cfg: dict) -> None:
     import pydsdl
     import nunavut.lang.c as lc
@@ -168,6 +217,7 @@ def write_c_table(path: str, types: list, cfg: dict) -> None:
                             cases.append("o->%s.%s.count = (size_t) %dU + 1U + (value %% 1000u);" % (lc.filter_id(lang, f.name), lc.filter_id(lang, g.name), g.data_type.capacity))
                 elif isinstance(sub, pydsdl.UnionType):
                     cases.append("o->%s._tag_ = (uint8_t) (200u + (value %% 50u));" % lc.filter_id(lang, f.name))
+        scribs = _c_scribble_cases(pydsdl, lc, lang, inner)
         lines.append("static int ser_%d(const void* o, uint8_t* b, size_t* s) { return %s_serialize_((const %s*) o, b, s); }" % (i, name, name))
         lines.append("static int des_%d(void* o, const uint8_t* b, size_t* s) { return %s_deserialize_((%s*) o, b, s); }" % (i, name, name))
         lines.append("static void init_%d(void* o) { %s_initialize_((%s*) o); }" % (i, name, name))
@@ -175,7 +225,11 @@ def write_c_table(path: str, types: list, cfg: dict) -> None:
         for k, c in enumerate(cases):
             lines.append("    case %d: %s break;" % (k, c))
         lines.append("    default: break; } }")
-        rows.append('    {"%s", sizeof(%s), %s_EXTENT_BYTES_, %s_SERIALIZATION_BUFFER_SIZE_BYTES_, init_%d, ser_%d, des_%d, corrupt_%d, %du},' % (name, name, name, name, i, i, i, i, len(cases)))
+        lines.append("static void scribble_%d(void* p, unsigned which, unsigned value) { %s* o = (%s*) p; (void) o; (void) value; switch (which %% %du) {" % (i, name, name, max(len(scribs), 1)))
+        for k, c in enumerate(scribs):
+            lines.append("    case %d: %s break;" % (k, c))
+        lines.append("    default: break; } }")
+        rows.append('    {"%s", sizeof(%s), %s_EXTENT_BYTES_, %s_SERIALIZATION_BUFFER_SIZE_BYTES_, init_%d, ser_%d, des_%d, corrupt_%d, %du, scribble_%d, %du},' % (name, name, name, name, i, i, i, i, len(cases), i, len(scribs)))
     lines.append("static const vt_t TYPES[] = {")
     lines += rows
     lines.append("};")
@@ -220,7 +274,12 @@ def write_cpp_table(inc_path: str, tbl_path: str, types: list, cfg: dict) -> Non
         for k, c in enumerate(cases):
             lines.append("    case %d: %s break;" % (k, c))
         lines.append("    default: break; } }")
-        rows.append('    Ops<%s>::make("%s", corrupt_%d, %du),' % (name, name, i, len(cases)))
+        scribs = _cpp_scribble_cases(pydsdl, lcpp, lang, inner)
+        lines.append("static void scribble_%d(void* p, unsigned which, unsigned value) { auto* o = static_cast<%s*>(p); (void) o; (void) value; switch (which %% %du) {" % (i, name, max(len(scribs), 1)))
+        for k, c in enumerate(scribs):
+            lines.append("    case %d: { %s } break;" % (k, c))
+        lines.append("    default: break; } }")
+        rows.append('    Ops<%s>::make("%s", corrupt_%d, %du, scribble_%d, %du),' % (name, name, i, len(cases), i, len(scribs)))
     lines.append("static const vt_t TYPES[] = {")
     lines += rows
     lines.append("};")
@@ -317,7 +376,7 @@ def make_ops(r: Rng, types: list, n: int, is_c: bool, counters: dict, full_cap_o
         ti = ro.below(nt)
         sl = ro.below(4)
         t = types[ti]
-        kind = ro.weighted([("des", 50), ("ser", 24), ("init", 3), ("poison", 7), ("corrupt", 6), ("copy", 4), ("move", 2 if not is_c else 0), ("reconstruct", 1 if not is_c else 0), ("selfassign", 1 if not is_c else 0), ("swap", 2 if not is_c else 0)])
+        kind = ro.weighted([("des", 50), ("ser", 24), ("init", 3), ("poison", 7), ("corrupt", 6), ("scribble", 6), ("copy", 4), ("move", 2 if not is_c else 0), ("reconstruct", 1 if not is_c else 0), ("selfassign", 1 if not is_c else 0), ("swap", 2 if not is_c else 0)])
 
         def des() -> list:
             buf, fk = make_buffer(ro.sub("buf", len(ops)), t, counters)
@@ -348,6 +407,11 @@ def make_ops(r: Rng, types: list, n: int, is_c: bool, counters: dict, full_cap_o
             ops.append(des())
         elif kind == "corrupt":
             ops.append([5, ti, sl, (ro.below(8) << 16) | ro.below(60000), ""])
+        elif kind == "scribble":
+            # one scalar leaf gets an extreme bit pattern, then (usually) the object is serialised
+            ops.append([11, ti, sl, (ro.below(64) << 16) | ro.below(60000), ""])
+            if ro.chance(3, 4):
+                ops.append(ser())
             ops.append(ser())
             if ro.chance(1, 2):
                 ops.append(des())
@@ -503,7 +567,7 @@ def run_case(case: dict, ctx: dict) -> dict:
         violations.append({"signature": "%s:%s:%s" % (PROP, cfg["name"], cls), "detail": detail})
         bump("status", "script-failed")
     for o in ops:
-        bump("ops", {1: "INIT", 2: "DES", 3: "SER", 4: "POISON", 5: "CORRUPT", 6: "COPY", 7: "MOVE", 8: "RECONSTRUCT", 9: "SELFASSIGN", 10: "SWAP"}.get(o[0], "?"))
+        bump("ops", {1: "INIT", 2: "DES", 3: "SER", 4: "POISON", 5: "CORRUPT", 6: "COPY", 7: "MOVE", 8: "RECONSTRUCT", 9: "SELFASSIGN", 10: "SWAP", 11: "SCRIBBLE"}.get(o[0], "?"))
     nontrivial = []
     if hstats and (hstats.get("decode_into_used_slot", 0) + hstats.get("decode_after_failed_decode", 0) + hstats.get("decode_into_corrupted_slot", 0)) > 0 and hstats.get("ser_small_cap", 0) > 0:
         nontrivial.append(hashlib.sha256(repr((sorted(files.items()), cfg["name"], sorted(counters["ops"].items()), sorted(counters["buffers"].items()))).encode()).hexdigest()[:16])
